@@ -191,6 +191,18 @@ pub fn c11(ctx: &mut Ctx) {
             c11_case(&buf, l);
         });
     }
+    // very long runs of one header-only packet (65 536, 65 537, 200 000 tiles: where a 16-bit tile counter wraps or a
+    // per-tile recursion runs out of stack) and single-tile SDES giants
+    {
+        let sp = super::bytes::giants_runs_space();
+        let get = &sp.get;
+        ctx.bound("giant runs", "runs of 65536 / 65537 / 200000 header-only packets of each of 10 packet types; 6 SDES packets with one chunk of more than 65535 bytes of items");
+        ctx.run_space(&sp.name, sp.len, |idx, l| {
+            let mut buf = Vec::new();
+            get(idx, &mut buf);
+            c11_case(&buf, l);
+        });
+    }
     // iterator call histories: every sequence of next / nth / take-count calls up to a depth, then collect / count /
     // last, on the compound of every tile sequence of length 1..=3, against what plain next() calls give (which the
     // spaces above compare with the model)
